@@ -103,7 +103,7 @@ bool BufferedFd::enable()
         return false;
     }
 
-    if (sp_read_event_ != nullptr)
+    if (sp_read_event_ != nullptr && !is_read_eof_)
         sp_read_event_->enable();
 
     //! data queued by send() while not running is flushed by the write event
@@ -235,6 +235,10 @@ void BufferedFd::onReadCallback(short)
             deliver();
 
     } else if (rsize == 0) {    //! 读到0字节数据，说明fd_已不可读了
+        //! the close is reported once: stop watching for readability, it would fire again in every loop pass
+        is_read_eof_ = true;
+        sp_read_event_->disable();
+
         //! no more data will come: what is still buffered (less than the threshold) goes out before the close is reported
         if (recv_buff_.readableSize() > 0) {
             deliver();
